@@ -238,11 +238,18 @@ Definition pair_ok (cA : cfg) (stepsA : list rstep) (cB : cfg) (stepsB : list rs
 (* ---------- reads on the closed wrapper itself: the strict reading ---------- *)
 (* reads after close fail rather than returning stale data, for a Read with any buffer size, 0 included: as long as the
    body the caller holds is the very wrapper Close was called on (no probing HasBody has put a new wrapper around it
-   since), every Read returns no data AND an error - also one that asks for nothing. (Once a later probe has wrapped the
+   since), every Read returns no data AND a failure (an error that is not io.EOF) - also one that asks for nothing, and also when the
+   body had been read to its end before it was closed. (Once a later probe has wrapped the
    closed body again, a zero-length Read on the new wrapper may return 0, nil: the judgement of hist_ok, fails.)
    w: the body has been replaced; top: the body held is a closed wrapper. Judged for requests that have a body. *)
+(* a failure is an error other than io.EOF: (0, io.EOF) is how a stream reports that it has been read to its end
+   successfully - io.ReadAll and every read loop take it for success - so a closed body that answers it looks like a
+   complete, empty body instead of refusing the read, also when the stream had already reported its end before Close *)
+Definition is_failure (oe : option err) : bool :=
+  match oe with Some e => negb (err_eqb e EOF) | None => false end.
+
 Definition read_refused (x : out) : bool :=
-  match x with ORead d oe => is_nil d && is_some oe | _ => false end.
+  match x with ORead d oe => is_nil d && is_failure oe | _ => false end.
 
 Fixpoint closed_reads_fail (c : cfg) (w top : bool) (ops : list op) (outs : list out) : bool :=
   match ops, outs with
